@@ -3,7 +3,7 @@
  *
  * H2: registry of live VM heap objects with stable ids (heap.c).
  * H1: per-instruction state trace and instruction budget (vm.c).
- * Everything is inert unless NANOLANG_VERIF_TRACE / NANOLANG_VERIF_FUEL are set.
+ * Everything is inert unless NANOLANG_VERIF_TRACE_VM / NANOLANG_VERIF_FUEL are set.
  */
 #ifndef NANOVM_VERIF_HOOKS_H
 #define NANOVM_VERIF_HOOKS_H
